@@ -153,6 +153,15 @@ CCClaim == CCGood =>
         r.claim = r.amt - (IF CCown THEN SecondFee(CCc.fee, r.dir = 0) ELSE 0)
   /\ Last.claim = CCClaimSpec
 
+\* Environment fault: the signer fails once, at the k-th signature of a force close (any k).  The node may
+\* report the failure - the caller retries - but it must never return a summary that silently lacks the
+\* spends it owns: what it returns is the complete summary of that state, on a fully signed commitment.
+IsCF == l > 1 /\ Last.a = "CloseFault"
+CCFaults == IsCF =>
+  /\ Len(Last.faults) >= 1
+  /\ \A f \in Range(Last.faults) :
+        f.err = 1 \/ (f.nout = Last.nout /\ f.nin = Last.nin /\ f.commit = 1)
+
 -----------------------------------------------------------------------------
 (* Justice *)
 IsJ == l > 1 /\ Last.a = "Justice"
@@ -241,7 +250,7 @@ JSecondLevel == JGood =>
 
 -----------------------------------------------------------------------------
 (* the base invariants, not evaluated on observation lines (those carry no projection) *)
-IsObs == l > 1 /\ Last.a \in {"CloseCheck", "Justice"}
+IsObs == l > 1 /\ Last.a \in {"CloseCheck", "Justice", "CloseFault"}
 B_ErrAgree        == ~IsObs => ErrAgree
 B_ConformCounters == ~IsObs => ConformCounters
 B_ConformChains   == ~IsObs => ConformChains
@@ -251,7 +260,7 @@ B_ConformShadowChains == ~IsObs => ConformShadowChains
 B_ConformTxLayer  == ~IsObs => ConformTxLayer
 B_OraclesHold     == ~IsObs => OraclesHold
 
-Obs == (Is("CloseCheck") \/ Is("Justice")) /\ UNCHANGED vars
+Obs == (Is("CloseCheck") \/ Is("Justice") \/ Is("CloseFault")) /\ UNCHANGED vars
 CNext == \/ TNext
          \/ Obs /\ UNCHANGED ctx
 CSpec == TInit /\ [][CNext]_<<vars, l, ctx>>
